@@ -80,6 +80,7 @@ type Action struct {
 	StatName string // Stat: name to report (long names make large Rstat replies)
 	ReadFull bool   // Read: return exactly count bytes
 	Direct  bool // Read: build the reply in req.Rc with InitRread/SetRreadCount and call Respond (as Ufs does)
+	Release *vs.Sem // when this request reaches the implementation it lets another (parked) one go: a queue file, a pipe
 }
 
 type reqKey struct {
@@ -205,6 +206,9 @@ func (fs *FS) enter(req *go9p.SrvReq, op string, fid *go9p.SrvFid, args string) 
 	a := fs.Script[reqKey{ci, tag, occ}]
 	if a == nil {
 		a = &Action{}
+	}
+	if a.Release != nil {
+		a.Release.Release()
 	}
 	if a.Gate != nil {
 		a.Gate.Acquire()
